@@ -14,9 +14,11 @@ function, arbitrary sizes (`max_population_size ≥ 1`) and **every** finite seq
   Boolean predicate that the check evaluates on the traces of the real populations.
 * the named corollaries restate the parts of the property in plain form.
 
-Greedy: `/repo`'s `add_all` folds with a short-circuiting `||` (`Greedy.repoShortCircuits`): the theorems are given for
-both folds; for the short-circuiting one only the considered prefix of a batch counts as offered
-(`…_partial`), and `greedy_short_circuit_add_all_loses_best` is the kernel-checked counter-witness for whole batches.
+Greedy: `/repo`'s `add_all` hands every element to `add` (`Greedy.repoShortCircuits = false`, repair S35), so
+`greedy_best_le_all_offered` is the statement about the code. The theorems are given for both folds: for the
+short-circuiting `acc || self.add(..)` that `/repo` had before, only the considered prefix of a batch is covered and
+`greedy_short_circuit_add_all_loses_best` is the kernel-checked witness of the loss — this is what the mutant
+`C08-n-greedy-short-circuit` reintroduces and what the oracle (always the full specification) rejects.
 Out of model: the GSOM network — the node part of `Rosomaxa::select` in the exploration phase comes from a tape that is
 assumed to contain offered individuals only (`tapeHyp`, C19's domain).
 -/
@@ -68,7 +70,7 @@ theorem greedy_run_inv (sc : Bool) (c : Cfg α) (hp : TotalPreorder c.le) (init 
     (fun offered s op h _ => greedy_step sc hp offered s op h) ops init.toList init (GInv.init c hp init)
     (HypAll_trivial _ _ _ _ _)
 
-/-- **Greedy whose `add_all` hands every element to `add`: after ANY operation sequence the best known is one of
+/-- **Greedy as in /repo (`add_all` hands every element to `add`): after ANY operation sequence the best known is one of
     the offered individuals and no worse than every individual ever offered, singly or in a batch.** -/
 theorem greedy_best_le_all_offered (c : Cfg α) (hp : TotalPreorder c.le) (init : Option α) (ops : List (Op α))
     (y : α) (hy : y ∈ init.toList ++ allOffered ops) :
@@ -78,11 +80,11 @@ theorem greedy_best_le_all_offered (c : Cfg α) (hp : TotalPreorder c.le) (init 
   obtain ⟨h, hh, hle⟩ := hinv.best y hy
   exact ⟨h, hh, hinv.sub h hh, hle⟩
 
-/-- **Greedy as in /repo (short-circuiting fold), partial**: the best known is no worse than every individual
-    offered singly and every individual of the *considered prefix* of each batch (up to and including its first
-    improving element). Missing for the full property: the batch elements after the first improving one —
+/-- **the short-circuiting fold (before the repair S35; regression analysis)**: the best known is no worse than every
+    individual offered singly and every individual of the *considered prefix* of each batch (up to and including its
+    first improving element). The batch elements after the first improving one are not covered —
     see `greedy_short_circuit_add_all_loses_best`. -/
-theorem greedy_best_le_all_considered_partial (c : Cfg α) (hp : TotalPreorder c.le) (init : Option α)
+theorem greedy_short_circuit_best_le_all_considered (c : Cfg α) (hp : TotalPreorder c.le) (init : Option α)
     (ops : List (Op α)) (y : α)
     (hy : y ∈ offeredAfter (greedySpec true c) (greedyM true c) init.toList init ops) :
     ∃ h, (greedyM true c).run init ops = some h ∧ c.le h y = true :=
@@ -147,10 +149,10 @@ theorem GInv.addAll_sorted {c : Cfg α} (hp : TotalPreorder c.le) {offered : Lis
       · obtain ⟨n, hn, hne⟩ := h1.best e (List.mem_append_right _ he)
         exact ⟨n, hn, hp.trans _ _ _ hne hey⟩
 
-/-- **Greedy as in /repo, partial (usable form)**: when every batch is sorted best-first — in particular when
-    every batch has at most one element, which is what a selection size of 1 produces — the best known is no worse
-    than every individual ever offered. -/
-theorem greedy_repo_best_le_all_offered_of_sorted_batches_partial (c : Cfg α) (hp : TotalPreorder c.le)
+/-- **the short-circuiting fold, usable form**: when every batch is sorted best-first — in particular when every batch
+    has at most one element, which is what a selection size of 1 produces — even that fold keeps the best known no worse
+    than every individual ever offered (why the defect did not show with the default selection size 1). -/
+theorem greedy_short_circuit_best_le_all_offered_of_sorted_batches (c : Cfg α) (hp : TotalPreorder c.le)
     (ops : List (Op α)) :
     ∀ (init : Option α) (offered : List α), GInv c offered init →
       (∀ xs, Op.addAll xs ∈ ops → xs.Pairwise (fun a b => c.le a b = true)) →
@@ -183,10 +185,10 @@ theorem natCfg_fit (cap sel : Nat) (a b : Nat) :
   · have : ¬ (a ≤ b ∧ b ≤ a) := by omega
     simp [h]; omega
 
-/-- **counter-witness for the short-circuiting fold** (what /repo's `Greedy::add_all` is as long as
-    `Greedy.repoShortCircuits = true`, which the correspondence run checks; replayed on the real code by
-    `corpus/C08/greedy_batch_skips_better.jsonl`): `add_all([5, 3])` on an empty population keeps `5` and reports an
-    improvement, although `3` was offered in the same batch and is strictly better; the exhaustive fold keeps `3`. -/
+/-- **counter-witness for the short-circuiting fold** (what /repo's `Greedy::add_all` was before the repair S35;
+    `corpus/C08/greedy_batch_skips_better.jsonl` replays the input on the real code, which must now keep `3`):
+    `add_all([5, 3])` on an empty population keeps `5` and reports an improvement, although `3` was offered in the same
+    batch and is strictly better; the exhaustive fold keeps `3`. -/
 theorem greedy_short_circuit_add_all_loses_best :
     Greedy.addAll true (natCfg 1 1) none [5, 3] = (some 5, true) ∧
       (natCfg 1 1).le 5 3 = false ∧
@@ -430,7 +432,7 @@ theorem seeded_solve_never_worse_rosomaxa (c : Cfg α) (rc : RCfg) (hp : TotalPr
       (by cases op <;> first | trivial | simp [Op.isSelect] at hns)).2)
     (fun offered s h => h.elite.best) RState.empty (RInv.empty c) initial gens y hy
 
-/-- **… — Greedy, also with the short-circuiting fold of /repo** (initial solutions are offered one by one, and a
+/-- **… — Greedy, with either fold** (initial solutions are offered one by one, and a
     batch can only replace the best known by a strictly better individual) -/
 theorem seeded_solve_never_worse_greedy (sc : Bool) (c : Cfg α) (hp : TotalPreorder c.le) (initial : List α)
     (gens : List (List α × Stats)) (y : α) (hy : y ∈ initial) :
